@@ -282,6 +282,17 @@ def handler : Handler := fun op j =>
         (ravelCatVia (envT tab) (fun x => evalT tab (.call "meth:ravel" [x] [])) (fun l => evalT tab (.cat l))) bound with
     | .error e => some (errReply e)
     | .ok v => some (reply tab (valJson v) (termsOfVal v))
+  | "reduce_call" => do     -- a wrapped reduction called with positional / keyword arguments: the model binds them itself
+    let fn ← fStr? j "fn"
+    let posParams ← (← fList? j "pos_params").mapM getStr?
+    let kwOnly ← (← fList? j "kw_only").mapM getStr?
+    let args ← (← fList? j "args").mapM valOfJson?
+    let kw ← kwOfJson? (← field? j "kwargs")
+    let tab ← tabOf? j
+    match reductionCall (envT tab) posParams kwOnly (fT tab fn)
+        (ravelCatVia (envT tab) (fun x => evalT tab (.call "meth:ravel" [x] [])) (fun l => evalT tab (.cat l))) args kw with
+    | .error e => some (errReply e)
+    | .ok v => some (reply tab (valJson v) (termsOfVal v))
   | "create" => do
     let fn ← fStr? j "fn"
     let key ← fStr? j "key"
